@@ -9,4 +9,5 @@ Separate Extraction
   decode_header decode_box_mdat
   read_data copy_data
   chunk stbl mstate chunk_seg copy_sample_data
-  box_in_file valid_range header_at chunks_cover chunks_in_payload expected_samples.
+  box_in_file valid_range header_at chunks_cover chunks_in_payload expected_samples
+  topbox boxdesc decode_file_top layout_at views erase.
